@@ -105,6 +105,9 @@ ScalarExprs(h) ==
   \cup { [k |-> "case", c |-> [k |-> "isnull", e |-> Ref(h, i)], t |-> Lit(2), f |-> Ref(h, i)] : i \in IntCols(h) \cap Usable(h) }
   \cup { [k |-> "coalesce", l |-> Ref(h, i), r |-> Lit(0)] : i \in IntCols(h) \cap Usable(h) }
   \cup { Bin(">", Ref(h, i), Lit(0)) : i \in IntCols(h) \cap Usable(h) }
+  \* comparisons that hold exactly at an end of the declared range 0..2 (the type of the projected column must keep TRUE)
+  \cup { Bin(">=", Ref(h, i), Lit(2)) : i \in IntCols(h) \cap Usable(h) }
+  \cup { Bin("<=", Ref(h, i), Lit(0)) : i \in IntCols(h) \cap Usable(h) }
   \cup { Lit(v) : v \in {1} \cup TextVals }
 
 AggExprs(h) ==
@@ -228,7 +231,8 @@ OrderBy == /\ q.k = "select" /\ steps < MaxSteps
 
 DistinctNames(o) == \A i, j \in 1..Len(o) : i # j => o[i].n # o[j].n
 
-Derive == /\ q.k \in {"select", "order", "setop"} /\ steps < MaxSteps /\ DistinctNames(Out(q))
+\* (a query with its own WITH may become a derived table: a later CTE of the same name must not capture its references)
+Derive == /\ q.k \in {"select", "order", "setop", "with"} /\ steps < MaxSteps /\ DistinctNames(Out(q))
           /\ \E al \in Pick({"d", "t"}) :     \* "t" shadows the base table of that name
                 Step(SelectAll([k |-> "sub", q |-> q, as |-> al]), "Derive")
 
